@@ -107,16 +107,27 @@ func runC05(e *Env) {
 			kinds[i] = ckUser
 		}
 	}
+	nilErr := make([]bool, nClosers)
+	for i := range nilErr {
+		nilErr[i] = e.P(4) == 3
+	}
+	earlyShutdown := e.P(6) == 5 // Shutdown races with Connect itself (the channel is still being set up)
 	nWriters := e.P(3)
 	feed := e.P(3) // inbound chunks fed by the peer
 	var desc []string
 	for _, k := range kinds {
 		desc = append(desc, ckNames[k])
 	}
-	e.Describe("channel=%s holder=%v closers=%v writers=%d inbound-chunks=%d stalls=%v", cc, useHolder, desc, nWriters, feed, e.Sim.StallOK)
+	e.Describe("channel=%s holder=%v closers=%v (nil-error: %v) writers=%d inbound-chunks=%d stalls=%v shutdown-racing-connect=%v", cc, useHolder, desc, nilErr, nWriters, feed, e.Sim.StallOK, earlyShutdown)
 
 	var connectRet int64
 	var conn *simnet.Conn
+	if earlyShutdown {
+		e.Go("early-shutdown", func() {
+			e.Step()
+			rig.BS.Shutdown()
+		})
+	}
 	e.Go("main", func() {
 		c, err := rig.BS.Connect("sim://peer:1")
 		if err != nil {
@@ -146,7 +157,10 @@ func runC05(e *Env) {
 		}
 		for i, k := range kinds {
 			i, k := i, k
-			cerr := fmt.Errorf("close-error-%d", i)
+			var cerr error = fmt.Errorf("close-error-%d", i)
+			if nilErr[i] {
+				cerr = nil // a graceful Close(nil)
+			}
 			switch k {
 			case ckUser:
 				e.Go(fmt.Sprintf("closer%d", i), func() {
@@ -289,6 +303,9 @@ func runC05(e *Env) {
 					if (r.Who == "holder.CloseAll" || r.Who == "Shutdown") && got == r.Err {
 						ok = true
 					}
+				}
+				if earlyShutdown && got == netty.ErrServerClosed {
+					ok = true
 				}
 				if !ok {
 					e.Violate("inactive-carries-effective-error", "framework-close", "inactive carried %q, which is neither an injected failure nor the argument of any Close call", errStr(got))
